@@ -1,7 +1,7 @@
 #!/bin/bash
 # runs every check's quick (or given) tier on /repo and reports exit codes; regenerates all evidence files
 TIER=${1:-quick}
-cd /verif
+cd "$(dirname "$0")/.."
 rc_all=0
 for p in $(python3 -c "import json; print(' '.join(sorted(json.load(open('check.config.json')))))"); do
   out=$(./check $p --tier $TIER 2>&1); rc=$?
